@@ -43,7 +43,13 @@ def load_unit(pid):
     path = f"{VERIF}/units/{pid}.json"
     if not os.path.exists(path):
         raise Undecided(f"no unit file {path}")
-    return json.load(open(path))
+    u = json.load(open(path))
+    shared = json.load(open(f"{VERIF}/units/_shared.json"))
+    cs = list(u.get("contracts", []))
+    for m in u.get("modules", []):
+        cs += shared.get("contracts", {}).get(m, [])
+    u["contracts"] = cs
+    return u
 
 
 def splice_module_line(rel, hroot):
@@ -268,7 +274,10 @@ def classify(h, rc, out, wall, timed_out):
     covers = [c for c in checks if c["status"] in ("SATISFIED", "UNSATISFIABLE", "UNREACHABLE")
               and ".cover." in c["name"]]
     props = [c for c in checks if c not in covers]
-    failures = [c for c in props if c["status"] in ("FAILURE", "ERROR")]
+    # status ERROR is what CBMC prints for every check when it aborted (memory cap, internal error)
+    # and for failed unwinding assertions: always a tool limit, never a decided failure
+    errors = [c for c in props if c["status"] == "ERROR"]
+    failures = [c for c in props if c["status"] == "FAILURE"]
     def harness_bug(c):
         # arithmetic overflow / index out of bounds raised by the harness text itself (not by an
         # obligation it asserts) is a defect of the harness: undecided, never a violation
@@ -288,6 +297,10 @@ def classify(h, rc, out, wall, timed_out):
     }
     if timed_out:
         r.update(verdict="undecided", reason=f"timeout after {h.get('timeout_s')} s")
+    elif errors:
+        unw = [c for c in errors if "unwinding assertion" in c["description"]]
+        r.update(verdict="undecided", reason="tool limit: " + (f"unwinding assertion {unw[0]['name']}" if unw and len(errors) < 5
+                 else f"{len(errors)} checks with status ERROR (CBMC aborted: memory cap or internal error)"))
     elif real_fail:
         r.update(verdict="fail", reason=f"{len(real_fail)} check(s) FAILED: " + real_fail[0]["description"][:160])
     elif p["successful"]:
